@@ -132,7 +132,15 @@ def IsLpm (W : Nat) (es : List (Pfx × α)) (q : Pfx) (p : Pfx) (v : α) : Prop 
 def LpmSafe (W : Nat) (t : Node α) (q : Pfx) : Prop :=
   t.All (fun x => x.contains W q.addr = true → x.len ≤ q.len)
 
-theorem lpmGo_spec : ∀ {t : Node α}, t.Inv W → ∀ {q : Pfx}, q.WF W → LpmSafe W t q → ∀ m,
+/-- The walk of `LPM(q)` only meets nodes that are not longer than `q` (weaker than `LpmSafe`:
+only the nodes actually visited matter; the walk stops at `q` itself). -/
+def WalkOk (W : Nat) : Node α → Pfx → Prop
+  | .nil, _ => True
+  | .node c _ l r, q => c.contains W q.addr = true →
+      c.len ≤ q.len ∧ (q ≠ c → (nthBit W q.addr (c.len + 1) = 0 → WalkOk W l q) ∧
+        (¬ nthBit W q.addr (c.len + 1) = 0 → WalkOk W r q))
+
+theorem lpmGo_spec : ∀ {t : Node α}, t.Inv W → ∀ {q : Pfx}, q.WF W → WalkOk W t q → ∀ m,
     (∃ p v, t.lpmGo W q m = some (p, v) ∧ IsLpm W t.toList q p v) ∨
     (t.lpmGo W q m = m ∧ ∀ p v, (p, v) ∈ t.toList → ¬ p.covers W q = true)
   | .nil, _, q, _, _, m => Or.inr ⟨rfl, fun p v h => absurd h not_mem_nil⟩
@@ -147,7 +155,7 @@ theorem lpmGo_spec : ∀ {t : Node α}, t.Inv W → ∀ {q : Pfx}, q.WF W → Lp
       simp [this] at hnc
     · rename_i hcont
       have hcont : c.contains W q.addr = true := by simpa using hcont
-      have hle : c.len ≤ q.len := hs.1 hcont
+      have hle : c.len ≤ q.len := (hs hcont).1
       have hcq : c.covers W q = true := (contains_iff_covers hc hq hle).1 hcont
       have hchild : ∀ {j : Nat} {ch : Node α}, ch.All (fun x => x.WF W ∧ Under W c j x) → q.len ≤ c.len →
           ∀ p v, (p, v) ∈ ch.toList → ¬ p.covers W q = true := by
@@ -177,7 +185,7 @@ theorem lpmGo_spec : ∀ {t : Node α}, t.Inv W → ∀ {q : Pfx}, q.WF W → Lp
           · exact absurd (covers_eq_of_len hc hq hcq (by omega)).symm hne
         -- generic step: descend into child `ch` on side `j`, the other child `oc` on side `j'`
         have step : ∀ {j j' : Nat} {ch oc : Node α}, j ≠ j' → nthBit W q.addr (c.len + 1) = j →
-            ch.Inv W → LpmSafe W ch q →
+            ch.Inv W → WalkOk W ch q →
             ch.All (fun x => x.WF W ∧ Under W c j x) → oc.All (fun x => x.WF W ∧ Under W c j' x) →
             (∀ p v, (p, v) ∈ (node c d l r).toList ↔ (p = c ∧ d = some v) ∨ (p, v) ∈ ch.toList ∨ (p, v) ∈ oc.toList) →
             (∀ m', (∃ p v, ch.lpmGo W q m' = some (p, v) ∧ IsLpm W ch.toList q p v) ∨
@@ -213,17 +221,24 @@ theorem lpmGo_spec : ∀ {t : Node α}, t.Inv W → ∀ {q : Pfx}, q.WF W → Lp
               · exact hoc p v hm hx
         split
         · rename_i hb
-          exact step (j := 0) (j' := 1) (by decide) hb hi.2.2.2.1 hs.2.1 hi.2.1 hi.2.2.1
-            (fun p v => mem_toList_node) (fun m' => lpmGo_spec hi.2.2.2.1 hq hs.2.1 m') _
+          have hsl := ((hs hcont).2 hne).1 hb
+          exact step (j := 0) (j' := 1) (by decide) hb hi.2.2.2.1 hsl hi.2.1 hi.2.2.1
+            (fun p v => mem_toList_node) (fun m' => lpmGo_spec hi.2.2.2.1 hq hsl m') _
             (fun v e => by subst e; rfl) (fun e => by subst e; rfl)
         · rename_i hb
           have hb1 : nthBit W q.addr (c.len + 1) = 1 := by
             have := nthBit_eq_zero_or_one W q.addr (c.len + 1); omega
-          exact step (j := 1) (j' := 0) (by decide) hb1 hi.2.2.2.2.1 hs.2.2 hi.2.2.1 hi.2.1
+          have hsr := ((hs hcont).2 hne).2 hb
+          exact step (j := 1) (j' := 0) (by decide) hb1 hi.2.2.2.2.1 hsr hi.2.2.1 hi.2.1
             (fun p v => by rw [mem_toList_node]; constructor <;> (rintro (h | h | h) <;> simp [h]))
-            (fun m' => lpmGo_spec hi.2.2.2.2.1 hq hs.2.2 m') _
+            (fun m' => lpmGo_spec hi.2.2.2.2.1 hq hsr m') _
             (fun v e => by subst e; rfl) (fun e => by subst e; rfl)
 
+
+theorem walkOk_of_lpmSafe : ∀ {t : Node α} {q : Pfx}, LpmSafe W t q → WalkOk W t q
+  | .nil, _, _ => trivial
+  | .node _ _ _ _, _, hs => fun hc =>
+    ⟨hs.1 hc, fun _ => ⟨fun _ => walkOk_of_lpmSafe hs.2.1, fun _ => walkOk_of_lpmSafe hs.2.2⟩⟩
 
 /-- A single-address query (`/32`, `/128`) is always safe. -/
 theorem lpmSafe_of_host {t : Node α} (hi : t.Inv W) {q : Pfx} (hq : q.len = W) : LpmSafe W t q := by
